@@ -212,7 +212,7 @@ func (e *Engine) classify1(fn *ssa.Function) fnClass {
 	}
 	// String() of protobuf enums (int32-based named types outside the repo) goes
 	// through protoimpl reflection; modelled as an injective rendering of the number
-	if fn.Name() == "String" && fn.Signature.Recv() != nil && fn.Signature.Params().Len() == 0 && !strings.HasPrefix(fnPkgPath(fn), "github.com/zilliztech/milvus-cdc/") {
+	if fn.Name() == "String" && fn.Signature.Recv() != nil && fn.Signature.Params().Len() == 0 && (!strings.HasPrefix(fnPkgPath(fn), "github.com/zilliztech/milvus-cdc/") || fnPkgPath(fn) == "github.com/zilliztech/milvus-cdc/core/pb") {
 		if b, ok := fn.Signature.Recv().Type().Underlying().(*types.Basic); ok && b.Kind() == types.Int32 {
 			e.intrinsics[key] = func(c *PathCtx, fr *frame, args []Value) Value {
 				return tConcat(mkStr("enum#"), fmtInt(c, args[0].(*Term), true))
